@@ -92,6 +92,50 @@ extern "C" fn m_recv(_fd: c_int, b: *mut c_void, l: libc::size_t, _f: c_int) -> 
 extern "C" fn m_write(_fd: c_int, b: *const c_void, l: libc::size_t) -> libc::ssize_t { unsafe { kernel_write(b.cast(), l) } }
 extern "C" fn m_send(_fd: c_int, b: *const c_void, l: libc::size_t, _f: c_int) -> libc::ssize_t { unsafe { kernel_write(b.cast(), l) } }
 
+// ---- vectored kernel: records every request (count + elements as (buffer index, offset, len)) and
+// really moves bytes between STREAM/SINK and the handed ranges
+static mut VBUFS: [[u8; 8]; 4] = [[0; 8]; 4];
+static mut VREQ: Vec<(usize, Vec<(usize, usize)>)> = Vec::new();
+#[allow(static_mut_refs)]
+unsafe fn kernel_vec(iov: *const libc::iovec, cnt: usize, is_read: bool) -> libc::ssize_t {
+    let mut elems = Vec::new();
+    let mut offered = 0;
+    // a count beyond 4 elements cannot describe any array built from this harness's <= 4 iovecs: record it, do not read it
+    for i in 0..cnt.min(4) {
+        let e = *iov.add(i);
+        elems.push((e.iov_base as usize, e.iov_len));
+        offered += e.iov_len;
+    }
+    VREQ.push((cnt, elems.clone()));
+    match next() {
+        Resp::Data(n) => {
+            let n = n.min(offered);
+            let mut left = n;
+            for (b, l) in elems {
+                let k = left.min(l);
+                for i in 0..k {
+                    if is_read {
+                        *(b as *mut u8).add(i) = STREAM[MOVED];
+                    } else {
+                        SINK[MOVED] = *(b as *const u8).add(i);
+                    }
+                    MOVED += 1;
+                }
+                left -= k;
+            }
+            n as libc::ssize_t
+        }
+        Resp::Eagain => fail(libc::EAGAIN),
+        Resp::Eintr => fail(libc::EINTR),
+        Resp::Reset => fail(libc::ECONNRESET),
+        Resp::Eof => if is_read { 0 } else { fail(libc::ECONNRESET) },
+    }
+}
+extern "C" fn m_readv(_fd: c_int, iov: *const libc::iovec, cnt: c_int) -> libc::ssize_t { unsafe { kernel_vec(iov, cnt as usize, true) } }
+extern "C" fn m_writev(_fd: c_int, iov: *const libc::iovec, cnt: c_int) -> libc::ssize_t { unsafe { kernel_vec(iov, cnt as usize, false) } }
+extern "C" fn m_recvmsg(_fd: c_int, m: *mut libc::msghdr, _f: c_int) -> libc::ssize_t { unsafe { kernel_vec((*m).msg_iov, (*m).msg_iovlen as usize, true) } }
+extern "C" fn m_sendmsg(_fd: c_int, m: *const libc::msghdr, _f: c_int) -> libc::ssize_t { unsafe { kernel_vec((*m).msg_iov, (*m).msg_iovlen as usize, false) } }
+
 fn parse_script(args: &[String]) -> Vec<Resp> {
     args.iter()
         .map(|a| match a.as_bytes()[0] {
@@ -164,6 +208,87 @@ fn main() {
                 println!(
                     "{{\"ret\": {r}, \"errno\": {e}, \"moved\": {}, \"calls\": {}, \"last_errno\": {}, \"blocking_after\": {}, \"elapsed_us\": {}, \"buf\": {:?}, \"sink\": {:?}}}",
                     MOVED, CALLS, LAST_ERRNO, still_blocking, t0.elapsed().as_micros(), &buf[..8], &SINK[..8]
+                );
+            }
+        }
+        // vec <readv|writev|recvmsg|sendmsg> <blocking 0|1> <lens comma separated, <= 4 iovecs of <= 8 bytes> <script...>
+        "vec" => {
+            init_event_loops();
+            let entry = args[2].as_str();
+            let blocking = num(3) != 0;
+            let lens: Vec<usize> = args[4].split(',').map(|x| x.parse().expect("len")).collect();
+            #[allow(static_mut_refs)]
+            unsafe {
+                SCRIPT = parse_script(&args[5..]);
+                for i in 0..64 {
+                    STREAM[i] = 0xA0 + i as u8;
+                }
+                for (j, b) in VBUFS.iter_mut().enumerate() {
+                    for (i, x) in b.iter_mut().enumerate() {
+                        *x = (0x10 * (j as u8 + 1)) + i as u8;
+                    }
+                }
+            }
+            let (fd, _peer) = socketpair(blocking);
+            // optional real kernel time limit (SO_RCVTIMEO / SO_SNDTIMEO), in milliseconds
+            if let Ok(ms) = std::env::var("OCV_LIMIT_MS") {
+                let ms: i64 = ms.parse().expect("OCV_LIMIT_MS");
+                let tv = libc::timeval { tv_sec: ms / 1000, tv_usec: (ms % 1000) * 1000 };
+                for opt in [libc::SO_RCVTIMEO, libc::SO_SNDTIMEO] {
+                    assert_eq!(0, unsafe {
+                        libc::setsockopt(fd, libc::SOL_SOCKET, opt, (&raw const tv).cast(), std::mem::size_of::<libc::timeval>() as libc::socklen_t)
+                    });
+                }
+            }
+            #[allow(static_mut_refs)]
+            let bases: Vec<usize> = unsafe { VBUFS.iter_mut().map(|b| b.as_mut_ptr() as usize).collect() };
+            let mut iovs: Vec<libc::iovec> = lens.iter().enumerate()
+                .map(|(j, l)| libc::iovec { iov_base: bases[j] as *mut c_void, iov_len: *l }).collect();
+            let n = iovs.len();
+            let r = match entry {
+                "readv" => { let f: extern "C" fn(c_int, *const libc::iovec, c_int) -> libc::ssize_t = m_readv; syscall::readv(Some(&f), fd, iovs.as_ptr(), n as c_int) }
+                "writev" => { let f: extern "C" fn(c_int, *const libc::iovec, c_int) -> libc::ssize_t = m_writev; syscall::writev(Some(&f), fd, iovs.as_ptr(), n as c_int) }
+                "recvmsg" => {
+                    let f: extern "C" fn(c_int, *mut libc::msghdr, c_int) -> libc::ssize_t = m_recvmsg;
+                    let mut m: libc::msghdr = unsafe { std::mem::zeroed() };
+                    m.msg_iov = iovs.as_mut_ptr();
+                    m.msg_iovlen = n;
+                    syscall::recvmsg(Some(&f), fd, &raw mut m, 0)
+                }
+                "sendmsg" => {
+                    let f: extern "C" fn(c_int, *const libc::msghdr, c_int) -> libc::ssize_t = m_sendmsg;
+                    let mut m: libc::msghdr = unsafe { std::mem::zeroed() };
+                    m.msg_iov = iovs.as_mut_ptr();
+                    m.msg_iovlen = n;
+                    syscall::sendmsg(Some(&f), fd, &raw const m, 0)
+                }
+                _ => panic!("bad entry"),
+            };
+            let e = errno();
+            let still_blocking = syscall::is_blocking(fd);
+            #[allow(static_mut_refs)]
+            unsafe {
+                // requests as [count, [[buffer index or -1, offset, len], ...]]
+                let mut reqs = String::from("[");
+                for (qi, (cnt, elems)) in VREQ.iter().enumerate() {
+                    if qi > 0 { reqs.push(','); }
+                    reqs.push_str(&format!("[{cnt},["));
+                    for (ei, (b, l)) in elems.iter().enumerate() {
+                        if ei > 0 { reqs.push(','); }
+                        let mut which: i64 = -1;
+                        let mut off = 0usize;
+                        for (j, base) in bases.iter().enumerate() {
+                            if *b >= *base && *b + *l <= *base + 8 { which = j as i64; off = *b - *base; }
+                        }
+                        reqs.push_str(&format!("[{which},{off},{l}]"));
+                    }
+                    reqs.push_str("]]");
+                }
+                reqs.push(']');
+                let bufs: Vec<Vec<u8>> = VBUFS.iter().map(|b| b.to_vec()).collect();
+                println!(
+                    "{{\"ret\": {r}, \"errno\": {e}, \"moved\": {}, \"calls\": {}, \"last_errno\": {}, \"blocking_after\": {}, \"requests\": {reqs}, \"bufs\": {:?}, \"sink\": {:?}}}",
+                    MOVED, CALLS, LAST_ERRNO, still_blocking, bufs, &SINK[..32]
                 );
             }
         }
